@@ -38,6 +38,7 @@ type tunCfg struct {
 	Adversary   int // chaos frames injected
 	Director    int // epoch-level faults injected
 	Sticky      int
+	PCT         int
 	Window      int  // gateway's outbound window (1 = stop-and-wait)
 	ReuseChan   bool // the gateway hands out the same channel id again after a reconnect
 	ForeignOnly bool // the adversary only emits frames for channels that are not the client's; links lossless
@@ -128,6 +129,7 @@ func drawTunCfg(e *Env) tunCfg {
 	}
 	c.LocalAddr = e.Choose("cfg.localaddr", 2) == 1
 	c.Sticky = []int{600, 0, 850, 300}[e.Choose("cfg.sticky", 4)]
+	c.PCT = []int{0, 0, 0, 0, 2, 5}[e.Choose("cfg.pct", 6)] // priority-based scheduling in a third of the runs
 	c.Reader = []string{"ready", "stalled", "intermittent", "absent"}[e.Choose("cfg.reader", 4)]
 	c.MaxSteps = 20000
 
@@ -247,10 +249,10 @@ func drawTunCfg(e *Env) tunCfg {
 }
 
 func (c tunCfg) String() string {
-	return fmt.Sprintf("tcp=%v R=%v T=%v H=%v local=%v senders=%dx%d think=%v inbound=%d/%v reader=%s closers=%d early=%v up={drop=%d dup=%d late=%d dmax=%v} down={drop=%d dup=%d late=%d dmax=%v} tlate=%d adv=%d dir=%d foreignonly=%v sticky=%d window=%d starve=%d/%v reusechan=%v werr=%d rerr=%v",
+	return fmt.Sprintf("tcp=%v R=%v T=%v H=%v local=%v senders=%dx%d think=%v inbound=%d/%v reader=%s closers=%d early=%v up={drop=%d dup=%d late=%d dmax=%v} down={drop=%d dup=%d late=%d dmax=%v} tlate=%d adv=%d dir=%d foreignonly=%v sticky=%d pct=%d window=%d starve=%d/%v reusechan=%v werr=%d rerr=%v",
 		c.TCP, c.R, c.T, c.H, c.LocalAddr, c.Senders, c.SendsEach, c.Think, c.Inbound, c.InboundGap, c.Reader, c.Closers, c.CloseEarly,
 		c.Up.DropPermille, c.Up.DupPermille, c.Up.LatePermille, c.Up.DelayMax, c.Down.DropPermille, c.Down.DupPermille, c.Down.LatePermille, c.Down.DelayMax,
-		c.TimerLate, c.Adversary, c.Director, c.ForeignOnly, c.Sticky, c.Window, c.Starve, c.StarveMax, c.ReuseChan, c.WriteErr, c.ReadErr)
+		c.TimerLate, c.Adversary, c.Director, c.ForeignOnly, c.Sticky, c.PCT, c.Window, c.Starve, c.StarveMax, c.ReuseChan, c.WriteErr, c.ReadErr)
 }
 
 func idMessage(id int) cemi.Message {
@@ -320,6 +322,7 @@ func runTunnel(e *Env) {
 	e.Cfg("%s", c.String())
 	e.S.SetConfig(func(sc *simrt.Config) {
 		sc.StickyPermille = c.Sticky
+		sc.PCTDepth = c.PCT
 		sc.LatePermille = c.TimerLate
 		sc.LateMax = c.LateMax
 		sc.StarvePermille = c.Starve
